@@ -1,4 +1,5 @@
 import LivesimVerif.Model.ChunkParser
+import LivesimVerif.Model.Limiter
 import Driver.Util
 /-! Line-protocol driver: one operation per input line, one canonical result per output line. -/
 open Drv
@@ -20,9 +21,43 @@ def opParse (args : List String) : String :=
     | _, _, _, _ => "bad-op"
   | _ => "bad-op"
 
+/-! ### C20: `lim <max> <intervalMs> <cidr,..|-> <t@ip;t@ip;...>` -/
+
+def parseCidr (s : String) : Option Lim.Block :=
+  match s.splitOn "/" with
+  | [a, n] => match Lim.parseV4 a, n.toNat? with
+    | some v, some b => if b ≤ 32 then some ⟨v, b⟩ else none
+    | _, _ => none
+  | _ => none
+
+def parseEv (s : String) : Option (Int × String) :=
+  match s.splitOn "@" with
+  | [t, ip] => t.toInt?.map (·, ip)
+  | _ => none
+
+def limRun (cfg : Lim.Cfg String) : Lim.St String → List (Int × String) → List String
+  | _, [] => []
+  | s, (now, ip) :: t =>
+    let r := Lim.inc cfg s now ip
+    let m := Lim.middleware cfg s now ip
+    s!"{r.2.nr},{r.2.maxNr},{boolStr r.2.ok},{Lim.count r.1 ip},{Lim.endTime cfg r.1},{m.2.1}" :: limRun cfg r.1 t
+
+def opLim (args : List String) : String :=
+  match args with
+  | [mx, itvl, bl, evs] =>
+    let blocks := if bl = "-" then some [] else (bl.splitOn ",").mapM parseCidr
+    let events := if evs = "-" then some [] else (evs.splitOn ";").mapM parseEv
+    match mx.toInt?, itvl.toInt?, blocks, events with
+    | some m, some i, some b, some e =>
+      let cfg : Lim.Cfg String := { max := m, interval := i, wl := Lim.whitelistV4 b }
+      joinWith ";" (limRun cfg { reset := 0, counters := [] } e)
+    | _, _, _, _ => "bad-op"
+  | _ => "bad-op"
+
 def step (line : String) : String :=
   match (line.trimAscii.toString.splitOn " ").filter (· ≠ "") with
   | "parse" :: args => opParse args
+  | "lim" :: args => opLim args
   | _ => "bad-op"
 
 partial def loop (h : IO.FS.Stream) (out : IO.FS.Stream) : IO Unit := do
